@@ -955,6 +955,7 @@ Format::Format::assemble(MemBuf &mb, const AccessLogEntry::Pointer &al, int logS
             if (!out)
                 out = strOrNull(al->cache.ssluser);
 #endif
+            quote = 1; // user names may contain blanks
             break;
 
         case LFT_USER_LOGIN:
@@ -962,10 +963,12 @@ Format::Format::assemble(MemBuf &mb, const AccessLogEntry::Pointer &al, int logS
             if (al->request && al->request->auth_user_request)
                 out = strOrNull(al->request->auth_user_request->username());
 #endif
+            quote = 1;
             break;
 
         case LFT_USER_EXTERNAL:
             out = strOrNull(al->getExtUser());
+            quote = 1;
             break;
 
         /* case LFT_USER_REALM: */
